@@ -930,6 +930,9 @@ pub struct SimSend<B> {
     side: usize,
     id: u64,
     writing: Option<WriteBuf<B>>,
+    /// `remaining()` of the buffer in flight when it was handed over, and bytes taken from it since
+    announced: usize,
+    drained: usize,
 }
 
 impl<B: Buf> SimSend<B> {
@@ -939,6 +942,8 @@ impl<B: Buf> SimSend<B> {
             side,
             id,
             writing: None,
+            announced: 0,
+            drained: 0,
         }
     }
 
@@ -996,10 +1001,15 @@ impl<B: Buf> SimSend<B> {
                 }
                 p.sent.extend_from_slice(&c[..take]);
                 let end = p.sent.len();
-                if end > SENT_LIMIT {
+                self.drained += take;
+                if self.drained > self.announced || end > SENT_LIMIT {
                     // nothing the monitors ask an application to send comes near this: a write
                     // buffer that never drains (its remaining() does not go down) is being replayed
-                    let d = format!("runaway-write on stream {}: more than {} bytes accepted from one sender", self.id, SENT_LIMIT);
+                    let d = if self.drained > self.announced {
+                        format!("runaway-write on stream {}: a write buffer that announced remaining() = {} has yielded {} bytes and is not empty (its cursor does not advance)", self.id, self.announced, self.drained)
+                    } else {
+                        format!("runaway-write on stream {}: more than {} bytes accepted from one sender", self.id, SENT_LIMIT)
+                    };
                     SPIN_HIT.with(|h| {
                         let mut h = h.borrow_mut();
                         if h.is_none() {
@@ -1043,7 +1053,10 @@ impl<B: Buf> quic::SendStream<B> for SimSend<B> {
         if let Some(f) = fail {
             return Err(f.into_error());
         }
-        self.writing = Some(data.into());
+        let w: WriteBuf<B> = data.into();
+        self.announced = w.remaining();
+        self.drained = 0;
+        self.writing = Some(w);
         Ok(())
     }
 
